@@ -8,9 +8,10 @@
 (* lena/flow/filter.py (Filter.run / fill_into),                           *)
 (* lena/context/functions.py (contains, get_recursively).                  *)
 (*                                                                         *)
-(* Declarative part (SelectorsSem.tla, from the documentation): Eval, a three-valued         *)
-(* ("T", "F", "E" = an exception propagates) recursive definition over the *)
-(* *specification* (what the user writes).                                 *)
+(* Declarative part (SelectorsSem.tla, from the documentation): Eval, a    *)
+(* recursive definition over the *specification* (what the user writes)    *)
+(* with the results "T", "F" or - an exception propagates - the name of    *)
+(* the exception's class.                                                  *)
 (* Operational part (like the code): Build = what the constructors make of *)
 (* a specification (a tree of selector objects, each with its own          *)
 (* raise_on_error), and a stack machine with one frame per __call__ in     *)
@@ -69,8 +70,11 @@ V25 == Val("int", 1, ABIs(LStr("xy")), TRUE)            \* (1, {"a": {"b": "xy"}
 V26 == Val("int", 0, ABIs(LListX), TRUE)                \* (0, {"a": {"b": ["x"]}})
 V27 == Val("str", 1, ABIs(LTupX), TRUE)                 \* ("s", {"a": {"b": ("x", "x")}})
 V28 == Val("int", 1, AIs(LStr("None.")), TRUE)          \* (1, {"a": "None."})
+\* sub-contexts on which the predicate "needx" answers (True, False) instead of raising
+V29 == Val("int", 1, ABIs(Dict(One("x", LInt(2, "2")))), TRUE)   \* (1, {"a": {"b": {"x": 2}}})
+V30 == Val("int", 0, AIs(Dict(One("x", LInt(1, "1")))), TRUE)    \* (0, {"a": {"x": 1}})
 AllVals == <<V1, V2, V3, V4, V5, V6, V7, V8, V9, V10, V11, V12, V13, V14, V15, V16, V17, V18, V19, V20, V21, V22, V23, V24,
-             V25, V26, V27, V28>>
+             V25, V26, V27, V28, V29, V30>>
 
 \* constant leaves: every outcome combination of the items of a container
 AbsLeaves == {Fn("yes"), Fn("no"), Fn("boom")}
@@ -82,11 +86,17 @@ SCs == {SC(p, q, r) : p \in {<<>>, A1, AB}, r \in BOOLEAN,
 SCFew == {SC(AB, "gt0", r) : r \in BOOLEAN}
 SCNone == {SC(AB, "isnone", TRUE), SC(A1, "always", FALSE), SC(AB, "cbool", TRUE), SC(AB, "cint", FALSE)}
 
+\* leaves raising an exception of a chosen class: the class lena's own lookup raises (and SelectContext
+\* catches around its lookup), its base classes, a subclass, other classes of lena, a plain Exception
+LK == "LenaKeyError"
+SCK == {SCE(AB, "needx", e, r) : e \in {LK, "KeyError", "Boom"}, r \in BOOLEAN} \cup {SCE(A1, "raise", LK, TRUE)}
+KindLeaves == {FnR(LK), FnR("KeyError"), FnN(LK)}
+
 \* (TLC evaluates every constant definition without parameters at start-up, used or not; the
 \* universes therefore take a dummy parameter and only the one selected by U is built.)
 \* MC universes: depth 1 / depth 2 over constant leaves (+ one context leaf and SelectContext)
-MCDepth1(u) == ObjsOver(AbsLeaves \cup {Str(A1)}, 2) \cup SCFew
-MCItems2(u) == AbsLeaves \cup SCFew
+MCDepth1(u) == ObjsOver(AbsLeaves \cup {Str(A1)}, 2) \cup SCFew \cup SCK \cup ObjsOver(KindLeaves \cup {Fn("yes")}, 1)
+MCItems2(u) == AbsLeaves \cup SCFew \cup {SCE(AB, "needx", LK, TRUE), SCE(AB, "needx", "KeyError", FALSE), FnR(LK)}
                \cup {NotO(x, r) : x \in AbsLeaves, r \in BOOLEAN}
                \cup {Sel(Fn("boom"), r) : r \in BOOLEAN}
                \cup RawOver({Fn("yes"), Fn("boom")}, 2)
@@ -97,7 +107,8 @@ MCItems2q(u) == AbsLeaves \cup {NotO(Fn("boom"), FALSE), NotO(Fn("boom"), TRUE),
                                 Sel(Fn("boom"), FALSE), Sel(Fn("boom"), TRUE),
                                 List(<<Fn("boom")>>), Tup(<<Fn("yes"), Fn("boom")>>),
                                 AndO(<<Fn("boom")>>, TRUE), OrO(<<Fn("no"), Fn("boom")>>, TRUE),
-                                AndO(<<Fn("yes"), Fn("boom")>>, FALSE), SC(AB, "gt0", TRUE)}
+                                AndO(<<Fn("yes"), Fn("boom")>>, FALSE), SC(AB, "gt0", TRUE),
+                                SCE(AB, "needx", LK, TRUE)}
 MCDepth2q(u) == MCDepth1(u) \cup ObjsOver(MCItems2q(u), 2)
 \* depth 3: the items are hand-picked depth-2 specifications, one per behaviour
 MCItems3(u) == AbsLeaves \cup
@@ -106,11 +117,13 @@ MCItems3(u) == AbsLeaves \cup
    OrO(<<Tup(<<Fn("yes"), Fn("boom")>>), Fn("yes")>>, TRUE), OrO(<<List(<<Fn("no")>>), NotO(Fn("no"), FALSE)>>, FALSE),
    Sel(NotO(Fn("boom"), FALSE), TRUE), List(<<NotO(Fn("yes"), TRUE), Fn("boom")>>),
    Tup(<<Sel(Fn("boom"), FALSE), Fn("yes")>>), Sel(AndO(<<Fn("yes"), Fn("boom")>>, FALSE), FALSE),
-   NotO(SC(AB, "gt0", TRUE), FALSE)}
+   NotO(SC(AB, "gt0", TRUE), FALSE), NotO(SCE(AB, "needx", LK, TRUE), FALSE), Tup(<<Fn("yes"), SCE(AB, "needx", LK, TRUE)>>)}
 MCDepth3(u) == ObjsOver(MCItems3(u), 2)
 \* Filter universes
 FilterAsts(u) == ObjsOver({Fn("len"), Fn("pos")}, 2) \cup SCFew \cup SCNone \cup {Sel(Str(A1), TRUE), NotO(SC(AB, "isnone", TRUE), TRUE)}
                  \cup {Sel(Str(ABX), TRUE), NotO(Str(ABX), FALSE)}
+                 \cup {SCE(AB, "needx", LK, TRUE), NotO(SCE(AB, "needx", LK, TRUE), FALSE), Sel(FnN(LK), TRUE),
+                       AndO(<<Cls("int"), SCE(AB, "needx", "KeyError", TRUE)>>, TRUE)}
 
 \* export universes (S2C): concrete leaves, all eight values per specification
 ExDepth1(u) == ObjsOver(ConcLeaves, 2) \cup SCs
@@ -134,12 +147,19 @@ ExItems3(u) == {Fn("pos"), Str(A1), Fn("boom")} \cup
    Sel(NotO(SC(AB, "hasx", TRUE), FALSE), TRUE), List(<<NotO(Str(ABX), TRUE), Fn("len")>>),
    Tup(<<Sel(Fn("pos"), FALSE), Str(A1)>>), Sel(AndO(<<Str(A1), Fn("len")>>, FALSE), FALSE)}
 ExDepth3(u) == ObjsOver(ExItems3(u), 2)
+\* exception classes: every class at the two kinds of raising predicate and as a raising callable;
+\* compositions over the classes that a handler of the implementation could take for its own
+ExKinds(u) == {SCE(p, q, e, r) : p \in {A1, AB}, q \in {"raise", "needx"}, e \in ExcKinds, r \in BOOLEAN}
+              \cup ObjsOver({FnR(e) : e \in ExcKinds}, 1)
+              \cup ObjsOver({Fn("yes"), Fn("no"), FnR(LK), FnR("KeyError"), FnN(LK)}, 2)
+              \cup ObjsOver({Fn("yes"), Cls("int"), SCE(AB, "needx", LK, TRUE), SCE(AB, "needx", LK, FALSE),
+                            SCE(AB, "needx", "KeyError", TRUE)}, 2)
 
 CONSTANTS U,    \* name of the universe of top-level selector objects
           F     \* name of the universe of flows
 Asts == CASE U = "mc1" -> MCDepth1(U) [] U = "mc2q" -> MCDepth2q(U) [] U = "mc2" -> MCDepth2(U) [] U = "mc3" -> MCDepth3(U)
           [] U = "filter" -> FilterAsts(U)
-          [] U = "ex1" -> ExDepth1(U) [] U = "ex2q" -> ExDepth2q(U) [] U = "ex23q" -> ExDepth2q(U) \cup ExDepth3(U) [] U = "ex2" -> ExDepth2(U) [] U = "ex3" -> ExDepth3(U)
+          [] U = "ex1" -> ExDepth1(U) [] U = "ex2q" -> ExDepth2q(U) [] U = "ex23q" -> ExDepth2q(U) \cup ExDepth3(U) \cup ExKinds(U) [] U = "ex2" -> ExDepth2(U) \cup ExKinds(U) [] U = "ex3" -> ExDepth3(U)
 Flows == CASE F = "one" -> {<<V3>>, <<V2>>, <<V12>>}
            [] F = "two" -> {<<V2>>, <<V12>>}
            [] F = "tiny" -> SeqsUpTo({V3, V4, V12, V25}, 2)
@@ -150,7 +170,8 @@ Flows == CASE F = "one" -> {<<V3>>, <<V2>>, <<V12>>}
 (* Operational part.  Build mirrors the constructors:                      *)
 (*   [o |-> "S" | "N", roe, in]  Selector / Not holding a leaf or object   *)
 (*   [o |-> "A" | "O", roe, items]   And / Or                              *)
-(*   [o |-> "C", roe, p, q]      SelectContext                             *)
+(*   [o |-> "C", roe, p, sc]     SelectContext (sc: its specification)     *)
+(*   [o |-> "P", sc, sub]        its predicate about to be applied to sub  *)
 (*   [o |-> "L", leaf]           the lambda made for a string / class, or  *)
 (*                               the user's callable                       *)
 (***************************************************************************)
@@ -168,7 +189,7 @@ BuildObj(x) ==
     [] x.k = "Not" -> [Build(x.x, x.roe) EXCEPT !.o = "N"]
     [] x.k = "And" -> [o |-> "A", roe |-> x.roe, items |-> [i \in 1..Len(x.xs) |-> BuildItem(x.xs[i], x.roe)]]
     [] x.k = "Or" -> [o |-> "O", roe |-> x.roe, items |-> [i \in 1..Len(x.xs) |-> BuildItem(x.xs[i], x.roe)]]
-    [] x.k = "SC" -> [o |-> "C", roe |-> x.roe, p |-> x.p, q |-> x.q]
+    [] x.k = "SC" -> [o |-> "C", roe |-> x.roe, p |-> x.p, sc |-> x]
 
 VARIABLES ast, flow,   \* the scenario: Filter(ast).run(flow)
           pos,         \* values pulled from the flow
@@ -176,19 +197,19 @@ VARIABLES ast, flow,   \* the scenario: Filter(ast).run(flow)
           results,     \* outcome of the selector for each value tested
           status,      \* "idle" (between values) | "eval" | "done" | "raised"
           stack,       \* frames [ob, i]: __call__s in progress, innermost last
-          ctl,         \* [m |-> "call", ob] | [m |-> "ret", r] | [m |-> "exc"] | [m |-> "none"]
+          ctl,         \* [m |-> "call", ob] | [m |-> "ret", r] | [m |-> "exc", r: class] | [m |-> "none"]
           first        \* what the first run of the Filter gave (status "none" during the first run)
 vars == <<ast, flow, pos, out, results, status, stack, ctl, first>>
 
 Nil == [o |-> "nil"]
 CCall(ob) == [m |-> "call", ob |-> ob, r |-> "-"]
 CRet(r) == [m |-> "ret", ob |-> Nil, r |-> r]
-CExc == [m |-> "exc", ob |-> Nil, r |-> "-"]
+CExc(e) == [m |-> "exc", ob |-> Nil, r |-> e]
 CNone == [m |-> "none", ob |-> Nil, r |-> "-"]
 Frame(ob, i) == [ob |-> ob, i |-> i]
 Top == stack[Len(stack)]
 Pop == SubSeq(stack, 1, Len(stack) - 1)
-Outcome(r) == IF r = "E" THEN CExc ELSE CRet(r)
+Outcome(r) == IF IsE(r) THEN CExc(r) ELSE CRet(r)
 
 NoFirst == [status |-> "none", out |-> <<>>, results |-> <<>>]
 Init == /\ ast \in Asts /\ flow \in Flows
@@ -208,10 +229,10 @@ Again == /\ F \in {"tiny", "small", "big"}                       \* (the Filter 
          /\ first' = [status |-> status, out |-> out, results |-> results]
          /\ pos' = 0 /\ out' = <<>> /\ results' = <<>> /\ status' = "idle" /\ stack' = <<>> /\ ctl' = CNone /\ Scen
 FilterDecide == /\ status = "eval" /\ stack = <<>> /\ ctl.m \in {"ret", "exc"}
-                /\ LET r == IF ctl.m = "exc" THEN "E" ELSE ctl.r IN
+                /\ LET r == ctl.r IN                      \* (of an exception: its class)
                    /\ results' = Append(results, r)
                    /\ out' = IF r = "T" THEN Append(out, flow[pos]) ELSE out
-                   /\ status' = IF r = "E" THEN "raised" ELSE "idle"
+                   /\ status' = IF ctl.m = "exc" THEN "raised" ELSE "idle"
                 /\ ctl' = CNone /\ Scen /\ UNCHANGED <<pos, stack, first>>
 
 Eval1 == status = "eval" /\ Scen /\ UNCHANGED <<pos, out, results, status, first>>
@@ -226,14 +247,21 @@ CallAndOr == /\ Eval1 /\ ctl.m = "call" /\ ctl.ob.o \in {"A", "O"}
 \* the lambda of a string / class specification or the user's callable
 CallLeaf == /\ Eval1 /\ ctl.m = "call" /\ ctl.ob.o = "L"
             /\ ctl' = Outcome(LeafEval(ctl.ob.leaf, flow[pos])) /\ UNCHANGED stack
-\* SelectContext.__call__ (does not go through Selector.__call__)
+\* SelectContext.__call__ (does not go through Selector.__call__), in the two steps of the code:
+\* 1. try: subcontext = get_recursively(context, key); except LenaKeyError: return False
+\*    - the handler encloses the lookup only;
+\* 2. try: predicate(subcontext); except Exception: raise or return False - the frame "C" is on the
+\*    stack while the predicate runs and treats its exception as a Selector frame does (CatchExc /
+\*    Propagate), of whatever class it is - also of the class the lookup raises.
 CallSelectContext == /\ Eval1 /\ ctl.m = "call" /\ ctl.ob.o = "C"
                      /\ LET s == GetRec(flow[pos].c, ctl.ob.p, 1) IN
-                        ctl' = IF s = Absent THEN CRet("F")                        \* except LenaKeyError
-                               ELSE Outcome(Catch(ctl.ob.roe, PredEval(ctl.ob.q, s)))
-                     /\ UNCHANGED stack
+                        IF s = Absent THEN ctl' = CRet("F") /\ UNCHANGED stack       \* except LenaKeyError
+                        ELSE /\ stack' = Append(stack, Frame(ctl.ob, 0))
+                             /\ ctl' = CCall([o |-> "P", sc |-> ctl.ob.sc, sub |-> s])
+CallPredicate == /\ Eval1 /\ ctl.m = "call" /\ ctl.ob.o = "P"
+                 /\ ctl' = Outcome(PredOf(ctl.ob.sc, ctl.ob.sub)) /\ UNCHANGED stack
 \* a value comes back to the innermost frame
-RetSelector == /\ Eval1 /\ ctl.m = "ret" /\ stack # <<>> /\ Top.ob.o \in {"S", "N"}
+RetSelector == /\ Eval1 /\ ctl.m = "ret" /\ stack # <<>> /\ Top.ob.o \in {"S", "N", "C"}
                /\ ctl' = CRet(IF Top.ob.o = "N" THEN Neg(ctl.r) ELSE ctl.r) /\ stack' = Pop
 RetAndOr == /\ Eval1 /\ ctl.m = "ret" /\ stack # <<>> /\ Top.ob.o \in {"A", "O"}
             /\ LET stop == IF Top.ob.o = "A" THEN "F" ELSE "T" IN
@@ -242,12 +270,13 @@ RetAndOr == /\ Eval1 /\ ctl.m = "ret" /\ stack # <<>> /\ Top.ob.o \in {"A", "O"}
                ELSE /\ stack' = Append(Pop, Frame(Top.ob, Top.i + 1))
                     /\ ctl' = CCall(Top.ob.items[Top.i + 1])
 \* an exception unwinds: except Exception in Selector.__call__ (Not negates the False)
-CatchExc == /\ Eval1 /\ ctl.m = "exc" /\ stack # <<>> /\ Top.ob.o \in {"S", "N"} /\ ~Top.ob.roe
+CatchExc == /\ Eval1 /\ ctl.m = "exc" /\ stack # <<>> /\ Top.ob.o \in {"S", "N", "C"} /\ ~Top.ob.roe
             /\ ctl' = CRet(IF Top.ob.o = "N" THEN "T" ELSE "F") /\ stack' = Pop
-Propagate == /\ Eval1 /\ ctl.m = "exc" /\ stack # <<>> /\ ~(Top.ob.o \in {"S", "N"} /\ ~Top.ob.roe)
-             /\ ctl' = CExc /\ stack' = Pop
+\* raise err: the same exception goes on
+Propagate == /\ Eval1 /\ ctl.m = "exc" /\ stack # <<>> /\ ~(Top.ob.o \in {"S", "N", "C"} /\ ~Top.ob.roe)
+             /\ ctl' = CExc(ctl.r) /\ stack' = Pop
 
-Next == FilterPull \/ FilterEnd \/ FilterDecide \/ Again \/ CallSelector \/ CallAndOr \/ CallLeaf \/ CallSelectContext
+Next == FilterPull \/ FilterEnd \/ FilterDecide \/ Again \/ CallSelector \/ CallAndOr \/ CallLeaf \/ CallSelectContext \/ CallPredicate
         \/ RetSelector \/ RetAndOr \/ CatchExc \/ Propagate
 Spec == Init /\ [][Next]_vars
 
@@ -256,14 +285,20 @@ Spec == Init /\ [][Next]_vars
 (***************************************************************************)
 TypeOK == /\ status \in {"idle", "eval", "done", "raised"}
           /\ pos \in 0..Len(flow) /\ Len(results) <= pos
-          /\ \A j \in 1..Len(results) : results[j] \in {"T", "F", "E"}
+          /\ \A j \in 1..Len(results) : results[j] \in {"T", "F"} \cup ExcKinds
 \* C15: the object built by the constructors, run by the call machine, computes the recursive definition
 Compositional == \A j \in 1..Len(results) : results[j] = Eval(ast, flow[j])
+\* an exception that reaches the caller is the exception of one of the leaves (nothing is invented or
+\* converted on the way), and a result "not selected" of a specification in which every object has
+\* raise_on_error=True is never a swallowed exception (Compositional, with AllRoe specifications)
+NothingInvented == \A j \in 1..Len(results) : IsE(results[j]) => results[j] \in LeafExcs(ast, flow[j])
 \* with raise_on_error=False nothing propagates out of the selector
 RoeFalseNeverRaises == ~ast.roe => status # "raised"
 \* Filter keeps exactly the selected values (up to the first value on which the selector raises)
 FilterKeeps == status \in {"done", "raised"} =>
-                 LET e == FilterSem(ast, flow) IN out = e.out /\ (status = "raised") = e.raised
+                 LET e == FilterSem(ast, flow) IN
+                 /\ out = e.out /\ (status = "raised") = e.raised
+                 /\ status = "raised" => results[Len(results)] = e.exc
 FilterOrder == \A j \in 1..Len(out) : \E i \in 1..pos : out[j] = flow[i]
 \* a Filter can be run again: the second run gives what the first gave
 SecondRunSame == (first.status # "none" /\ status \in {"done", "raised"}) =>
@@ -296,5 +331,6 @@ EmitVec == PrintT(ToJson([ast |-> ast,
                           vals |-> IF ast = FirstAst THEN AllVals ELSE <<>>]))
 \* Filter behaviours: the machine's output
 EmitFilter == (status \in {"done", "raised"} /\ first.status # "none") =>
-                PrintT(ToJson([ast |-> ast, flow |-> flow, out |-> out, raised |-> (status = "raised")]))
+                PrintT(ToJson([ast |-> ast, flow |-> flow, out |-> out, raised |-> (status = "raised"),
+                               exc |-> IF status = "raised" THEN results[Len(results)] ELSE ""]))
 =============================================================================
